@@ -3,9 +3,16 @@
 # (scratch worktree under /tmp/sv-<ID>, removed afterwards). Prints one summary line; details in /tmp/sv/<ID>.*
 id=$1; src=$2; prop=${3:-$(echo $id | cut -c1-3)}
 wt=/tmp/sv-$id
-git -C /repo worktree remove --force $wt >/dev/null 2>&1
-git -C /repo worktree add --detach $wt HEAD >/dev/null 2>&1 || { echo "$id worktree-failed"; exit 2; }
-if ! git -C $wt apply $src/patch.diff 2>/tmp/sv/$id.apply; then echo "$id patch-does-not-apply"; git -C /repo worktree remove --force $wt; exit 2; fi
+mkdir -p /tmp/sv
+# the patch is applied to the current HEAD of /repo; a seeded change written against an earlier state of the fix history that no
+# longer applies there is applied to the commit it was written against instead (the check still runs against that whole tree)
+applied=""
+for base in HEAD c3ce33c d664c36; do
+  git -C /repo worktree remove --force $wt >/dev/null 2>&1
+  git -C /repo worktree add --detach $wt $base >/dev/null 2>&1 || continue
+  if git -C $wt apply $src/patch.diff 2>/tmp/sv/$id.apply; then applied=$base; break; fi
+done
+if [ -z "$applied" ]; then echo "$id patch-does-not-apply"; git -C /repo worktree remove --force $wt >/dev/null 2>&1; exit 2; fi
 export OMP_NUM_THREADS=2 MKL_NUM_THREADS=2 MPLBACKEND=Agg
 export VERIF_EVIDENCE_DIR=/tmp/sv/evidence VERIF_REPLAY_DIR=/tmp/sv/replays   # never touch the committed evidence
 mkdir -p /tmp/sv/evidence /tmp/sv/replays
@@ -20,5 +27,5 @@ for s in 1 2 3; do
   res="$res seed$s:rc=$rc$(echo "$out" | grep -q no-failing-input-found && echo '(nfi)')"
   if [ $s = 1 ]; then echo "$out" | tail -5 > /tmp/sv/$id.check; fi
 done
-echo "$id prop=$prop demo_unchanged=$d0 demo_changed=$d1 pytest='$pt' check:$res"
+echo "$id base=$applied prop=$prop demo_unchanged=$d0 demo_changed=$d1 pytest='$pt' check:$res"
 git -C /repo worktree remove --force $wt
